@@ -3,7 +3,7 @@ CONSTANTS
  Confs <- SensibleConfs
  Modes = {"tag", "api", "oci"}
  Caches = {0, 1}
- Pages = {0, 1}
+ Pages = {0}
  TagDels = {1}
  SubjSel = {"ror"}
  MaxOps = 3
